@@ -173,3 +173,10 @@ PROPS["C25"] = dict(explanation="Bounded symbolic execution of the master's real
     bounds=["one bucket per transaction; timeframes 1Min, 1H, 1D; fixed-length (int32 column) and variable-length (int32 + Nanoseconds)", "1..2 rows per request (consecutive intervals, or the same interval for variable-length), second/nanosecond/values symbolic"],
     outside=["transactions that mix fixed- and variable-length buckets (Replayer.Replay uses wtsets[0].RecordType for every set: read from the code, not exercised)", "gRPC transport, ordering between transactions", "tick codec precision (C10): encoder/decoder replaced by contract stubs"],
     stubs=FS_STUBS + TICK_STUBS, assumptions=COMMON_ASSUME)
+
+
+PROPS["C16"] = dict(explanation="Bounded symbolic execution of the create/write, query and destroy paths for adversarial bucket keys over the file-system model: io.NewTimeBucketKey/GetItems/GetCategories/GetPathToYearFiles, Writer.WriteCSM -> catalog.AddTimeBucket (mkdir per item, category_name files, year file from the template code), WAL and primary writes, planner/reader for the query, catalog.RemoveTimeBucket. The model records every path a file-mutating call touches; none may lie outside the data root. The key components are case-split over an adversarial alphabet (this property has no numeric content for the solver; the value of the check is that the real code runs on every shape and the oracle is over the real calls).",
+    runs=[dict(pkg="executor", files=["c08_fixed.go", "c09_variable.go", "c11_range.go", "c16_paths.go"], entries=["VerifC16Keys"], must_reach=["entered", "handled"], opts=dict(timeout=30))],
+    bounds=["symbol in {AAPL, '..', '.', '', '../..', 'a/../..', 'AAPL/..'}, timeframe in {1D, '..'}, attribute group in {OHLCV, '..', '../../X', ''}, optionally an extra '/../../../escape' tail: 112 keys", "operations: write (creating the bucket), query, destroy"],
+    outside=["other characters (NUL, backslash on Windows, very long names)", "the gRPC/JSON-RPC front ends in front of these calls", "symbolic links inside the root"],
+    stubs=FS_STUBS, assumptions=COMMON_ASSUME)
